@@ -22,7 +22,12 @@ fn eff(code: SymInt) -> SymInt {
 /// (first/last day of a year, a leap day, the first days of July and August, a Saturday in November).
 fn probe_days() -> Vec<NaiveDate> {
     let mut v: Vec<NaiveDate> = (-3..=3).map(probe_day).collect();
-    for (y, m, d) in [(2024, 1, 15), (2024, 2, 29), (2024, 7, 1), (2024, 7, 5), (2024, 8, 1), (2024, 11, 30), (2024, 12, 31), (2025, 1, 1), (2025, 6, 11), (2023, 6, 14)] {
+    // frame ends: ISO week 53 (2020-12-30, Sunday 2021-01-03), week 52 (2020-12-23), week 1 of 2021,
+    // December, Sunday, the last supported year
+    for (y, m, d) in [
+        (2024, 1, 15), (2024, 2, 29), (2024, 7, 1), (2024, 7, 5), (2024, 8, 1), (2024, 11, 30), (2024, 12, 31), (2025, 1, 1), (2025, 6, 11), (2023, 6, 14),
+        (2020, 12, 23), (2020, 12, 30), (2021, 1, 3), (2021, 1, 6), (9999, 12, 31), (9999, 6, 12), (1900, 1, 1),
+    ] {
         v.push(date(y, m, d));
     }
     v
@@ -58,9 +63,15 @@ pub fn family(thorough: bool) -> Vec<(String, Vec<RuleSpec>)> {
     let n = RuleOperator::Normal;
     let mut out: Vec<(String, Vec<RuleSpec>)> = vec![];
     let canon: Vec<Sel> = if thorough {
-        vec![Sel::Empty, Sel::We, Sel::TuWe, Sel::MoFr, Sel::SaTu, Sel::FrTh, Sel::Jun, Sel::JunAug, Sel::NovFeb, Sel::Week24, Sel::Week20To30, Sel::Y2024, Sel::JunWe, Sel::Y2024We, Sel::JulFrTh]
+        vec![
+            Sel::Empty, Sel::We, Sel::TuWe, Sel::MoFr, Sel::SaTu, Sel::FrTh, Sel::Jun, Sel::JunAug, Sel::NovFeb, Sel::Week24, Sel::Week20To30, Sel::Y2024, Sel::JunWe, Sel::Y2024We,
+            Sel::JulFrTh, Sel::Week40To52, Sel::Week50To53, Sel::Week52To02, Sel::NovDec, Sel::Dec, Sel::SaSu, Sel::Su, Sel::Y2024To9999, Sel::Y9999, Sel::Y1900To2024,
+        ]
     } else {
-        vec![Sel::Empty, Sel::We, Sel::MoFr, Sel::SaTu, Sel::Jun, Sel::NovFeb, Sel::Week24, Sel::Y2024, Sel::JunWe]
+        vec![
+            Sel::Empty, Sel::We, Sel::MoFr, Sel::SaTu, Sel::Jun, Sel::NovFeb, Sel::Week24, Sel::Y2024, Sel::JunWe, Sel::Week40To52, Sel::Week50To53, Sel::Week52To02, Sel::NovDec,
+            Sel::SaSu, Sel::Y2024To9999, Sel::Y1900To2024,
+        ]
     };
     // one rule
     for sel in canon.iter().copied() {
@@ -80,7 +91,8 @@ pub fn family(thorough: bool) -> Vec<(String, Vec<RuleSpec>)> {
     } else {
         vec![
             (Sel::Empty, Sel::Empty), (Sel::Empty, Sel::We), (Sel::MoFr, Sel::We), (Sel::We, Sel::MoFr), (Sel::Jun, Sel::Empty), (Sel::Empty, Sel::JulFrTh), (Sel::Jun, Sel::JunWe),
-            (Sel::NovFeb, Sel::SaTu), (Sel::Y2024, Sel::Week24), (Sel::We, Sel::Ph), (Sel::MoFr, Sel::Jun12), (Sel::Week24, Sel::TuWe),
+            (Sel::NovFeb, Sel::SaTu), (Sel::Y2024, Sel::Week24), (Sel::We, Sel::Ph), (Sel::MoFr, Sel::Jun12), (Sel::Week24, Sel::TuWe), (Sel::WeSu, Sel::MoTu), (Sel::MoTu, Sel::TuWe),
+            (Sel::Week40To52, Sel::Week50To53), (Sel::NovDec, Sel::Dec), (Sel::SaSu, Sel::Su), (Sel::Y2024To9999, Sel::Y1900To2024),
         ]
     };
     for op in OPS {
@@ -123,7 +135,7 @@ pub fn templates(thorough: bool) -> Vec<Template> {
     family(thorough)
         .into_iter()
         .map(|(id, sp)| {
-            let desc = format!("normalize + schedule_at on 17 probe days of: {}", describe(&sp));
+            let desc = format!("normalize + schedule_at on 24 probe days of: {}", describe(&sp));
             Template::new(id, desc, move || normalization(&sp))
         })
         .collect()
